@@ -38,7 +38,13 @@ func init() {
 			}
 			ins = append(ins, lzInput{"testdata:" + name, b})
 		}
-		ins = append(ins, lzInput{"fib-profile", fibProfile(map[bool]float64{true: 1.0, false: 0.3}[c.Thorough()])})
+		// the full profile (Huffman codes of 17 and 18 bits) in BOTH tiers and in front of the long inputs: codes longer
+		// than 16 bits - where the encoder's 16-bit chunking and the canonical 16-bit accumulator part ways - exist on
+		// no smaller input
+		ins = append([]lzInput{{"fib-profile-full", fibProfile(1.0)}}, ins...)
+		if !c.Thorough() {
+			ins = append(ins, lzInput{"fib-profile", fibProfile(0.3)})
+		}
 		for idx, in := range ins {
 			if !c.TimeLeft() {
 				c.Note("time budget reached after %d of %d inputs", idx, len(ins))
